@@ -63,9 +63,47 @@ class Gen07(c01.Gen):
     finally:
       self.static = False
 
+  def same_tree_ref_history(self):
+    """a pg.Ref that points at a node of the SAME tree, built bottom-up (`m = ...; t = holder of
+    Ref(m or a node inside m); e = holder of m and t`): m and t are moved into e, in either order, so
+    the referenced node is visited before or after the reference by a clone of e. Then clones."""
+    r = self.r
+    F = list(c01.F)
+    inner = ['d', list(F), [[['k', 0], r.below(3)]]] if r.chance(0.6) else ['l', list(F), [r.below(3)]]
+    m = ['d', list(F), [[['k', 0], inner], [['k', 1], r.below(4)]]] if r.chance(0.6) else \
+        ['o', r.below(2), list(F), [[0, inner], [1, r.below(4)]]]
+    tgt = r.below(2)                       # 0: m itself, 1: the node inside m
+    refs = [['k', 0], ['R', tgt]]
+    t = r.weighted([
+        (3, ['d', list(F), [refs, [['k', 1], ['l', list(F), []]]]]),
+        (2, ['o', r.below(2), list(F), [[0, ['R', tgt]], [1, ['d', list(F), []]]]]),
+        (2, ['d', list(F), [[['k', 0], ['l', list(F), [['R', tgt], 1]]]]]),
+        (1, ['d', list(F), [[['k', 0], ['R', 0]], [['k', 2], ['R', 1]]]])])
+    # nodes before the third construction: m = 0, its inner node = 1, t = 2
+    first_m = r.chance(0.5)
+    a, b = (['r', 0], ['r', 2]) if first_m else (['r', 2], ['r', 0])
+    e = r.weighted([
+        (3, ['d', list(F), [[['k', 0], a], [['k', 1], b]]]),
+        (2, ['l', list(F), [a, r.below(3), b]]),
+        (2, ['o', 1, list(F), [[0, a], [1, b]]]),
+        (1, ['d', list(F), [[['k', 0], ['l', list(F), [a]]], [['k', 1], ['d', list(F), [[['k', 3], b]]]]]])])
+    ops = [{'op': 'new', 'v': m}, {'op': 'new', 'v': t}, {'op': 'new', 'v': e}]
+    for _ in range(r.randint(1, 4)):
+      j = self.clone_op()
+      if r.chance(0.6):
+        j['t'] = 0
+      if r.chance(0.6):
+        j['deep'] = True
+      ops.append(j)
+      if r.chance(0.2):
+        ops.append({'op': 'seal', 't': r.below(64), 'flag': r.chance(0.6)})
+    return {'ops': ops}
+
   def history(self, max_ops=25):
     r = self.r
     if r.chance(0.3):
+      if r.chance(0.25):
+        return self.same_tree_ref_history()
       return self.static_history()
     ops = []
     for _ in range(r.randint(1, 2)):
@@ -222,7 +260,8 @@ class C07(c01.C01):
   driver = 'drv_c07'
   rule = ('30 % mutation-free histories (constructions with pg.Ref to existing nodes / to plain lists, '
           'parent-inferred values, individually sealed inner containers; seal / unseal of arbitrary nodes; '
-          'clones of arbitrary nodes); 70 % histories: 1-2 constructions (Dict/List/2 Object classes, flags incl. sealed / '
+          'clones of arbitrary nodes; a quarter of them: a pg.Ref to a node of the SAME tree, built bottom-up so that the '
+          'referenced node comes before or after the reference in visiting order, then clones of the whole tree and of parts); 70 % histories: 1-2 constructions (Dict/List/2 Object classes, flags incl. sealed / '
           'accessor_writable / allow_partial at several depths, non-symbolic leaf objects), then 2-25 '
           'calls, 18 % of them clone(deep or shallow) of an arbitrary node, the rest drawn from the '
           'whole mutator surface of C01 applied to arbitrary nodes of either copy; the model dump is '
